@@ -27,6 +27,20 @@ every mutation exit 1 with a minimised replay, every harmless rewrite exit 0):
   H1 C04  call(): record built in a local and stored with dict.update()      silent (exit 0)
   H2 C11  `_unsubscribe`: scount = sum(1 for _ in list); `if not scount`     silent (exit 0)
 The minimised witnesses are kept in corpus/C04, corpus/C11 and replayed first on every run.
+
+After the repairs of F8 / F9 / F10 in /repo (8b7d7882, 156d2c77, a7a5033b) the model follows the repaired code and
+`dispatch_exact` / `progress_only_own_handler` are full theorems; re-run with tools_selftest_sess.py (extended session
+model, 2026-09-23): re-introducing each defect is reported again (exit 1) —
+  c04-f10-reintroduced                                       exit 1  keys: result:progressive-details-without-args-or-kwargs-raises-TypeError
+      replay: open m.welcome,7 call,1,a,k,op=1/d=t,ok m.result,1,a1,n,1
+  c04-m1-published-get-instead-of-pop                        exit 1  keys: m.published:raise:ProtocolError-expected-got-no-raise
+      replay: open m.welcome,4 pub,6,a1,k1=2.3=4,oack=t,ok m.published,1,102 m.published,1,103
+  c11-f8-reintroduced                                        exit 1  keys: event:details-of-another-handler-in-kwargs
+      replay: open m.welcome,7 sub,1,9,oda=0,ok sub,2,9,n,ok m.subscribed,1,77 m.subscribed,2,77 m.event,77,1,a1,k5=2
+  c11-f9-reintroduced                                        exit 1  keys: event:handler-skipped-after-synchronous-unsubscribe
+      replay: open m.welcome,7 sub,1,9,n,ok sub,2,9,n,ok sub,3,9,n,ok m.subscribed,1,77 m.subscribed,2,77 m.subscribed,3,77 m.event,77,1,a1,n;r!r+unsub,0,ok
+  c11-m6-reversed-dispatch                                   exit 1  keys: event:handler-called-unexpectedly, event:handler-order
+      replay: open m.welcome,7 sub,1,9,n,ok sub,2,9,n,ok sub,3,9,n,ok m.subscribed,1,77 m.subscribed,2,77 m.subscribed,3,77 m.event,77,1,a1,n;r!r+unsub,0,ok
 """
 import itertools
 
@@ -51,7 +65,7 @@ ASSUMPTIONS = [
     "ITransport.send either accepts the message or raises; it does not call back into the session synchronously",
     "onMessage is not re-entered while user code it called is still running",
     "request ids pairwise distinct is proved for histories that draw at most 2^53 ids from one session object",
-    "INVOCATION for an existing registration, CHALLENGE/ABORT and the lifecycle callbacks are stubs here (C06, C10)",
+    "INVOCATION for an existing registration, CHALLENGE/ABORT and the lifecycle callbacks are modelled (C06, C10) but not exercised by this check's generators",
 ]
 MANIFEST_ENTRY = {
     "technique": "Lean 4 theorems by induction over arbitrary event histories of an executable session model + "
@@ -65,16 +79,18 @@ MANIFEST_ENTRY = {
             "table_iff_pending (the six tables read as one map agree with the Spec's pending map), reply_routing (a reply "
             "(type,id) completes exactly the future recorded under (kind(type),id) with that reply's content, removes it, "
             "leaves the other tables alone), unknown_reply_is_violation (ProtocolError and no state change for unknown id, "
-            "wrong type, wrong request_type, duplicates), send_failure. Stated in full, refuted on concrete histories and "
-            "proved as _partial: progress_only_own_handler (F10: details=True with absent args/kwargs; and a call made "
-            "without options) and ids restarting at 1 for a second join on the same object (U5). The model is tied to the "
+            "wrong type, wrong request_type, duplicates), send_failure, progress_only_own_handler (in full since the repair "
+            "of F10 in /repo a7a5033b: a progressive RESULT calls the on_progress of its own call only, absent args/kwargs "
+            "read as empty, and completes nothing). Stated in full, refuted on a concrete history and proved as _partial: "
+            "ids restarting at 1 for a second join on the same object (U5). The model is tied to the "
             "code by generated histories (k<=6 outstanding requests of mixed kinds, all reply permutations for k<=4, "
             "success/error/progressive/duplicate/unknown-id/wrong-type/wrong-kind replies, all payload shapes, interleaved "
             "EVENT traffic, send failures, cancels, explicit loop iterations) on both frameworks.",
     "note": "Trusted: Lean kernel; the hand-written model (checked only by the differential run); txaio/Deferred/Future "
-            "semantics. INVOCATION traffic for live registrations and the session lifecycle are stubs of the shared session "
-            "model (C06/C10); only ProtocolError-raising INVOCATIONs are interleaved. Known findings F10, its no-options "
-            "variant and U5 are reproduced by the check and listed in known_findings.d/C04.jsonl.",
+            "semantics. INVOCATION traffic for live registrations and the session lifecycle are the business of C06/C10 "
+            "(same model); here only ProtocolError-raising INVOCATIONs are interleaved. Known finding U5 is reproduced by the "
+            "check and listed in known_findings.d/C04.jsonl; F10 and its no-options variant are listed there as fixed "
+            "(a7a5033b) and would be reported as violations again.",
 }
 
 
